@@ -260,7 +260,7 @@ func (c *C15) Plan(tier string) engine.Plan {
 	if tier == "thorough" {
 		return engine.Plan{Runs: 60000, Workers: 12, BudgetSec: 1800, ShrinkSec: 60}
 	}
-	return engine.Plan{Runs: 1400, Workers: 8, BudgetSec: 110, ShrinkSec: 30}
+	return engine.Plan{Runs: 1400, Workers: 8, BudgetSec: 150, ShrinkSec: 30}
 }
 
 func (c *C15) Init(tier string, worker, nworkers int, seed uint64) error {
@@ -333,6 +333,9 @@ func (c *C15) Run(x *engine.Ctx) *engine.Violation {
 	format := "raw"
 	data, ends, offs := d.raw, d.rawB, c.rawOffs
 	idx := int(x.Run)
+	if ops.Bin() != "" {
+		idx -= (idx + 1) / 5 // every fifth run is an element of the CLI matrix below; the others are numbered densely
+	}
 	if idx%2 == 1 {
 		format = "compressed"
 		data, ends, offs = d.comp, d.cmpB, c.cmpOffs
@@ -344,6 +347,43 @@ func (c *C15) Run(x *engine.Ctx) *engine.Violation {
 		k = offs[idx]
 	} else {
 		k = int64(t.BigBelow(bigInt(ends[3])).Int64())
+	}
+	if ops.Bin() != "" && x.Run%5 == 4 {
+		// CLI matrix, enumerated: every command that reads a keys file x both formats x a cut in every section
+		// (and at the boundaries the property names), so that a short run has all of them
+		m := int(x.Run / 5)
+		cmd, fm, cls := m%6, (m/6)%2, (m/12)%8
+		format, data, ends = "raw", d.raw, d.rawB
+		if fm == 1 {
+			format, data, ends = "compressed", d.comp, d.cmpB
+		}
+		between := func(lo, hi int64) int64 {
+			if hi <= lo {
+				return lo
+			}
+			return lo + t.BigBelow(bigInt(hi-lo)).Int64()
+		}
+		switch cls {
+		case 0:
+			k = int64(t.Draw(8))
+		case 1:
+			k = between(ends[0], ends[1])
+		case 2:
+			k = ends[1] - 1 - int64(t.Draw(3))
+		case 3:
+			k = between(ends[1], ends[2])
+		case 4:
+			k = ends[2]
+		case 5:
+			k = ends[2] + 1 + int64(t.Draw(64))
+		case 6:
+			k = between(ends[2]+1, ends[3])
+		default:
+			k = ends[3] - 1 - int64(t.Draw(6))
+		}
+		x.S.Count("fault:disk/crash-after-k-bytes")
+		x.S.Count("probe:cli_matrix_element")
+		return c.cliOnPrefix(x, format, data[:k], ends, cmd)
 	}
 	fault := "crash-after-k-bytes"
 	var prefix []byte
@@ -380,7 +420,7 @@ func (c *C15) Run(x *engine.Ctx) *engine.Violation {
 		prefix = data[:k]
 	}
 	if ops.Bin() != "" && t.Chance(1, 10) {
-		return c.cliOnPrefix(x, format, prefix, ends)
+		return c.cliOnPrefix(x, format, prefix, ends, -1)
 	}
 	// ReadSystemFromFile on a real file is what every command does; the in-memory readers add short reads
 	style := t.Weighted(4, 3, 3)
@@ -524,7 +564,7 @@ func (c *C11) Run(x *engine.Ctx) *engine.Violation {
 	a := d.sys
 	path := []string{"raw", "compressed", "converted"}[t.Weighted(2, 2, 2)]
 	style := t.Weighted(3, 3, 2)
-	if ops.Bin() != "" && t.Chance(1, 6) {
+	if ops.Bin() != "" && x.Run%3 == 0 {
 		if v := c.cliConvert(x); v != nil {
 			return v
 		}
@@ -667,8 +707,11 @@ func (c *C11) Run(x *engine.Ctx) *engine.Violation {
 
 // cliOnPrefix: the commands that read a keys file, run as real processes on a truncated file,
 // must end non-zero (and `start` must not stay up serving a half-loaded system).
-func (c *C15) cliOnPrefix(x *engine.Ctx, format string, prefix []byte, ends [4]int64) *engine.Violation {
+func (c *C15) cliOnPrefix(x *engine.Ctx, format string, prefix []byte, ends [4]int64, which int) *engine.Violation {
 	t := x.T
+	if which < 0 {
+		which = t.Draw(6)
+	}
 	path := filepath.Join(c.scratch, fmt.Sprintf("c15cli-%d-%d.ps", os.Getpid(), x.Run))
 	if err := os.WriteFile(path, prefix, 0o644); err != nil {
 		panic(err)
@@ -679,7 +722,7 @@ func (c *C15) cliOnPrefix(x *engine.Ctx, format string, prefix []byte, ends [4]i
 	mode := c.d.sys.Mode
 	var args []string
 	cmdName := ""
-	switch t.Draw(6) {
+	switch which {
 	case 0:
 		cmdName, args = "prove", []string{"prove", "--mode", mode, "--keys-file", path}
 	case 1:
@@ -725,10 +768,27 @@ func (c *C11) cliConvert(x *engine.Ctx) *engine.Violation {
 	if err := os.WriteFile(in, c.d.comp, 0o644); err != nil {
 		panic(err)
 	}
-	inPlace := x.T.Chance(1, 2)
+	variant := int(x.Run/3) % 4 // enumerated, so that a short run covers every output-path history
+	inPlace := variant == 1
 	if inPlace {
 		out = in // converting a keys file in place (same path for input and output)
 		x.S.Count("probe:cli_convert_to_raw_in_place")
+	} else if variant >= 2 {
+		// history: the output path already holds something - an older keys file that is larger than what will
+		// be written, a torn leftover of an interrupted earlier conversion, or unrelated bytes
+		var old []byte
+		switch {
+		case variant == 2:
+			old = append(append([]byte{}, c.d.raw...), c.d.comp[:len(c.d.comp)/3]...) // larger
+		case x.T.Chance(1, 2):
+			old = c.d.raw[:len(c.d.raw)/2] // a torn earlier attempt
+		default:
+			old = bytes.Repeat([]byte{0xEE}, len(c.d.raw)+4096)
+		}
+		if err := os.WriteFile(out, old, 0o644); err != nil {
+			panic(err)
+		}
+		x.S.Count("probe:cli_convert_to_raw_over_existing_file")
 	}
 	r := ops.Run(ops.Cmd{Args: []string{"convert-to-raw", "--input", in, "--output", out}})
 	x.S.Eval(1)
@@ -742,7 +802,17 @@ func (c *C11) cliConvert(x *engine.Ctx) *engine.Violation {
 		return engine.Violatef("C11/cli-convert-to-raw-fails", "%s: no output file: %v", c.d.sys.Key(), err)
 	}
 	if !bytes.Equal(got, c.d.raw) {
-		return engine.Violatef("C11/cli-converted-file-differs-from-raw-file", "%s: `gnark-mbu convert-to-raw` wrote %d bytes that are not the raw file the system writes itself (%d bytes)", c.d.sys.Key(), len(got), len(c.d.raw))
+		// The property is about what the file reloads to, not about its bytes: a file that differs (say, by
+		// bytes after the last section) but loads as the same system is not a violation.
+		ps, lerr := prover.ReadSystemFromFile(out)
+		if lerr != nil {
+			return engine.Violatef("C11/cli-converted-file-does-not-reload", "%s: `gnark-mbu convert-to-raw` exited 0 (output-path history variant %d), but the %d-byte file it left does not load: %v", c.d.sys.Key(), variant, len(got), lerr)
+		}
+		var buf bytes.Buffer
+		if _, werr := ps.WriteRawTo(&buf); werr != nil || !bytes.Equal(buf.Bytes(), c.d.raw) {
+			return engine.Violatef("C11/cli-converted-file-differs-from-raw-file", "%s: `gnark-mbu convert-to-raw` wrote %d bytes that neither are nor reload to the raw file the system writes itself (%d bytes)", c.d.sys.Key(), len(got), len(c.d.raw))
+		}
+		x.S.Count("probe:cli_converted_file_differs_in_bytes_but_reloads_identically")
 	}
 	return nil
 }
